@@ -12,6 +12,8 @@ import Hw.Topo.WFLemmas0
 import Hw.Topo.InsertLemmas
 import Hw.Topo.SetStagePre
 import Hw.Topo.SetStageShape
+import Hw.Topo.RenderLemmas
+import Hw.Topo.RenderOf
 namespace Hw.Props.C01
 open Hw.Topo
 
@@ -142,5 +144,58 @@ example : (stage exIn).allowedC = 0x37 ∧ (stage exIn).allowedN = 3 ∧
      [6, 1, 0, 0x30, 0x38, 2, 2], [7, 6, 0, 0, 8, 2, 2], [8, 6, 0, 0x10, 0x10, 2, 2], [9, 6, 0, 0x20, 0x20, 2, 2],
      [11, 6, 1, 0x30, 0x38, 2, 2]] := by decide +kernel
 end SetStage
+
+/-! ### links and levels of a loaded topology follow from the renderer equality -/
+
+open Hw.Topo.Restrict in
+/-- C01_links_of_render: let `d` be any dump that is a fixed point of the renderer for some typed tree with a normal root
+    (`render t hdr ex = d`, PUs are leaves; the engine `topo-load` checks exactly this on every loaded topology with `t = treeOf d`,
+    `hdr = hdrOf d`, `ex` = the fields carried by gp from `d` itself: `renderCheck d = []`).  Then the 18 link and level clauses
+    of well-formedness hold for `d`: they are consequences of the equality, by the theorems about `render` (which hold for
+    ALL trees), not bounded evaluations.  (level0-is-root additionally uses that the root is a Machine.) -/
+theorem C01_links_of_render (d : Dump) (t : Tree) (hdr : Hdr) (ex : RObj → Extra) (heq : render t hdr ex = d)
+    (ht : typedT t = true) (hpu : puLeafT t = true) (hr : isNormal t.obj.type = true) :
+    (∀ o ∈ d.objs,
+      objClause "id-is-position" d (mkAux d) o = true ∧ objClause "root-or-parent" d (mkAux d) o = true ∧
+      objClause "parent-kind" d (mkAux d) o = true ∧ objClause "normal-child-slot" d (mkAux d) o = true ∧
+      objClause "children-array" d (mkAux d) o = true ∧ objClause "special-list-heads" d (mkAux d) o = true ∧
+      objClause "special-list-links" d (mkAux d) o = true ∧ objClause "no-children-where-forbidden" d (mkAux d) o = true ∧
+      objClause "depth-by-type" d (mkAux d) o = true ∧ objClause "depth-increases" d (mkAux d) o = true ∧
+      objClause "in-its-level" d (mkAux d) o = true) ∧
+    topClause "nobjs" d (mkAux d) = true ∧ topClause "levels-listed" d (mkAux d) = true ∧
+    topClause "level-entries-valid" d (mkAux d) = true ∧ topClause "levels-in-tree-order" d (mkAux d) = true ∧
+    topClause "normal-levels-nonempty" d (mkAux d) = true ∧ topClause "depth-le-objects" d (mkAux d) = true ∧
+    (t.obj.type = tMACHINE → topClause "level0-is-root" d (mkAux d) = true) := by
+  subst heq
+  refine ⟨fun o ho => ?_, render_nobjs t hdr ex, render_levels_listed t hdr ex, render_level_entries_valid t ht hr hdr ex,
+    render_levels_in_tree_order t hdr ex, render_normal_levels_nonempty t hdr ex, render_depth_le_objects t hdr ex,
+    fun hm => render_level0_is_root t hm hdr ex⟩
+  exact ⟨render_id_is_position t hdr ex o ho, render_root_or_parent t ht hdr ex o ho, render_parent_kind t ht hdr ex o ho,
+    render_normal_child_slot t ht hdr ex o ho, render_children_array t ht hdr ex o ho, render_special_list_heads t ht hdr ex o ho,
+    render_special_list_links t ht hdr ex o ho, render_no_children_where_forbidden t ht hpu hdr ex o ho,
+    render_depth_by_type t ht hr hdr ex o ho, render_depth_increases t ht hr hdr ex o ho, render_in_its_level t ht hr hdr ex o ho⟩
+
+open Hw.Topo.Restrict in
+/-- … in the form the engine uses: an empty `renderCheck d` gives the hypotheses of C01_links_of_render for `treeOf d` -/
+theorem C01_renderCheck_sound (d : Dump) (h : renderCheck d = []) :
+    ∃ t, treeOf d = .ok t ∧ typedT t = true ∧ puLeafT t = true ∧ isNormal t.obj.type = true ∧
+      render t (hdrOf d) (extraOf (gpTable d) (gpTable d)) = d := by
+  unfold renderCheck at h
+  cases ht : treeOf d with
+  | error e => rw [ht] at h; simp at h
+  | ok t =>
+    rw [ht] at h
+    simp only [List.append_eq_nil_iff] at h
+    have hc : (typedT t && puLeafT t && isNormal t.obj.type) = true := by
+      have := h.1
+      by_cases hc : (typedT t && puLeafT t && isNormal t.obj.type) = true
+      · exact hc
+      · rw [if_neg hc] at this; simp at this
+    simp only [Bool.and_eq_true] at hc
+    refine ⟨t, rfl, hc.1.1, hc.1.2, hc.2, ?_⟩
+    · have := h.2
+      cases hd : dumpDiff (render t (hdrOf d) (extraOf (gpTable d) (gpTable d))) d with
+      | none => exact dumpDiff_none _ _ hd
+      | some s => rw [hd] at this; simp at this
 
 end Hw.Props.C01
